@@ -1,6 +1,7 @@
 package main
 
 import (
+	"strconv"
 	"fmt"
 	"strings"
 )
@@ -11,6 +12,27 @@ func strLen(a StrV) IntV {
 		return mkInt(int64(len(a.S)))
 	case SChars:
 		return mkInt(int64(len(a.C)))
+	}
+	// the length of a concatenation is the sum over its pieces (one canonical term, so that
+	// len(s) and the executor's own bounds arithmetic agree under the string abstraction)
+	if leaves := flattenConcat(a.T); len(leaves) > 1 {
+		parts := make([]string, 0, len(leaves))
+		lit := 0
+		for _, l := range leaves {
+			lv := opaqueStr(l)
+			if lv.K == SLit {
+				lit += len(lv.S)
+				continue
+			}
+			parts = append(parts, "(str.len "+l+")")
+		}
+		if lit > 0 {
+			parts = append(parts, strconv.Itoa(lit))
+		}
+		if len(parts) == 1 {
+			return symInt(parts[0])
+		}
+		return symInt("(+ " + strings.Join(parts, " ") + ")")
 	}
 	return symInt("(str.len " + a.T + ")")
 }
